@@ -474,7 +474,9 @@ class DataSet:
             self._mask.update({i: False for i in range(0, self._num_points)})
             return
 
-        mask = mask.copy()
+        # Store plain integers and booleans (numpy integers and booleans are
+        # accepted) so that, e.g., the output of to_dict can be serialized.
+        mask = {int(i): bool(flag) for i, flag in mask.items()}
 
         for i in list(mask.keys()):
             if i < 0 or i >= self._num_points:
